@@ -51,7 +51,7 @@ Partition(R) == \A n \in DOMAIN R.segs :
 JudgeL(r) ==
   IF ~r.ok THEN <<>>
   ELSE LET sg == Sigma(r)
-           R == RefL(r.prog, r.files, sg, r.pc0, TRUE, r.move)
+           R == RefL(r.prog, r.files, SigmaRef(r), r.pc0, TRUE, r.move)
            m == Mismatch(r, sg, R) IN
        IF R.unspec THEN <<>>
        ELSE IF m # "" THEN <<>>                                 \* not a fixed point / align variant: C02's business, not judged here
